@@ -128,6 +128,14 @@ def Chunker.ofConfig : Config → Chunker
   | .rollsum f => .rolling (RHParams.ofConfig f) ⟨.roll (RollSum.new f.window), 0⟩
   | .fixed n => .fixed n
 
+/-- What `Config::new_chunker` asks the allocator for, in bytes: the state of the rolling hash
+(`vec![0u32; window]` and the seeded 256-entry table for BuzHash, `vec![0u8; window]` for RollSum) and
+the stream buffer (`BytesMut::with_capacity(REFILL_SIZE)`). -/
+def chunkerAllocations : Config → List Nat
+  | .buzhash f => [4 * f.window, 4 * 256, Gen.refillSize]
+  | .rollsum f => [f.window, Gen.refillSize]
+  | .fixed _ => [Gen.refillSize]
+
 /-- `Chunker::next`. -/
 def Chunker.next (c : Chunker) (rest : Bytes) (have_ : Nat) : Chunker × Option Nat :=
   match c with
@@ -182,6 +190,32 @@ def SC.run : SC → List Rd → List (Nat × Nat)
         cs ++ (if sc1.have_ = 0 then [] else [(sc1.start, sc1.have_)])
       else
         cs ++ SC.run { sc1 with have_ := sc1.have_ + min (max n 1) (sc1.rest.length - sc1.have_) } s
+
+/-! ### The buffer of the streaming chunker (C15: memory while scanning a seed)
+
+`poll_next` asks for more room only when fewer than `REFILL_SIZE` bytes are spare
+(`if buf.capacity() < buf.len() + REFILL_SIZE { buf.reserve(REFILL_SIZE) }`), and `read_buf` fills at
+most the spare capacity.  `BytesMut::reserve` is a dependency (bytes crate): it is modelled by its
+amortised growth - at least what is asked for, at most twice the old capacity - and trusted. -/
+
+/-- Capacity after the reserve step of `poll_next`. -/
+def capAfterReserve (cap len : Nat) : Nat :=
+  if cap < len + Gen.refillSize then max (2 * cap) (len + Gen.refillSize) else cap
+
+/-- The scan with its buffer: as `SC.run`, but a read delivers at most the spare capacity, and
+the `(capacity, buffered bytes)` after every read is recorded. -/
+def SC.caps : SC → Nat → List Rd → List (Nat × Nat)
+  | sc, cap, script =>
+    let (_, sc1) := SC.drain (sc.have_ + 1) sc
+    match script with
+    | [] => []
+    | .pending :: s => SC.caps sc1 cap s
+    | .bytes n :: s =>
+      let cap' := capAfterReserve cap sc1.have_
+      if sc1.have_ = sc1.rest.length then []
+      else
+        let got := min (min (max n 1) (cap' - sc1.have_)) (sc1.rest.length - sc1.have_)
+        (cap', sc1.have_ + got) :: SC.caps { sc1 with have_ := sc1.have_ + got } cap' s
 
 /-- Chunk a whole source under a read script. -/
 def chunkStream (cfg : Config) (data : Bytes) (script : List Rd) : List (Nat × Nat) :=
